@@ -10,9 +10,13 @@ correspondence check of harness/c17.go (family `disp`) over the whole grid.
 import JsonV.Model.Dispatch
 import JsonV.Lemmas.DispatchL
 import JsonV.Lemmas.DispatchPolice
+import JsonV.Lemmas.DispatchScope
+import JsonV.Lemmas.DispatchLegacy
+import JsonV.Props.C19Scope
 
 namespace JsonV.Props.C17
 open JsonV.Model JsonV.Model.Dispatch JsonV.Lemmas.DispatchL JsonV.Lemmas.DispatchPolice
+open JsonV.Model.Scope JsonV.Lemmas.DispatchScope JsonV.Lemmas.DispatchLegacy
 
 /-! ### Dispatch order -/
 
@@ -288,5 +292,161 @@ theorem needs_floor_variants :
       [.popA, .popA, .str, .pushA, .pushA, .str] .nil = .done ∧
     userCall 10000 (runScript 10000 [.pushO, .str, .pushA, .pushA] Machine.init).1
       [.popA, .popA, .str, .pushA, .pushA, .str] .nil = .fail := by decide
+
+/-! ### options_visible: the options user code observes are the effective options of the call
+
+Built on c19's scope machinery: `Model/Scope.lean` interprets the option-touching statements of the Go code, which are
+regenerated from source; `C19Scope.tie_userCalls` says that all four wrappers around user code (MarshalToFunc,
+UnmarshalFromFunc, MarshalJSONTo, UnmarshalJSONFrom) are the script `userCallS`, `tie_marshalEncode`/`tie_unmarshalDecode`/
+`tie_member_*` the same for the other scripts.  `observe g a s` (Lemmas/DispatchScope) lists the struct that
+`enc.Options()`/`dec.Options()` points to at the entry of every user call of the callee tree `a` run on struct `s`. -/
+
+/-- Tie A for this section (restated so that it is audited with C17): the four call sites are `userCallS`. -/
+theorem tie_userCalls : Gen.Scope.userCalls =
+    [("MarshalToFunc", userCallS), ("UnmarshalFromFunc", userCallS),
+     ("makeMethodArshaler", userCallS), ("makeMethodArshaler", userCallS)] := JsonV.Props.C19Scope.tie_userCalls
+
+/-- `options_visible`.  Below one call (no nested call with options of its own in between, `NoCall`), at the entry of
+EVERY user call — however deep: in struct members with or without `string`/`format` tags, after siblings that succeeded
+or failed non-fatally, inside other user calls — `GetOption` answers exactly as on the struct the call's body started
+with, for every option that has a public setter (`PlainKey`; StringifyNumbers: next theorem). -/
+theorem options_visible (g : Bool) (a : Act) (hn : NoCall a) (s s' : Struct) (h : s' ∈ observe g a s)
+    (k : Key) (hk : PlainKey k) : s'.getOption k = s.getOption k :=
+  getOption_sameOff (observe_sameOff g a hn s s' h) k hk
+
+/-- StringifyNumbers is the one documented exception: inside a member tagged `string` it reads as set
+("the string option specifies that StringifyNumbers be set"); otherwise as in the call's options. -/
+theorem options_visible_stringify (g : Bool) (a : Act) (hn : NoCall a) (s s' : Struct) (h : s' ∈ observe g a s) :
+    s'.getOption (.flag F.stringifyNumbers) =
+      (if !s'.flags.has F.stringifyNumbers && s'.flags.get F.stringTag then (.bool true, true)
+       else (.bool (s.flags.get F.stringifyNumbers), s.flags.has F.stringifyNumbers)) :=
+  getOption_stringify (observe_sameOff g a hn s s' h)
+
+/-- A MarshalEncode/UnmarshalDecode call (also one made by user code on the coder it was handed) starts a new scope:
+user code below it sees the EFFECTIVE options of that call — the coder's struct joined with the call's options
+(`effective`; by `C19Scope.scoped_call_precedence` that is the coder's entries overridden by the call's, last wins). -/
+theorem options_visible_call (g mar : Bool) (opts : List Opt) (nn : Bool) (body : Act) (hn : NoCall body)
+    (s s0 s' : Struct) (he : effective g mar opts nn s = some s0) (h : s' ∈ observe g (.call mar opts nn body) s)
+    (k : Key) (hk : PlainKey k) : s'.getOption k = s0.getOption k := by
+  simp only [observe, he] at h
+  exact options_visible g body hn s0 s' h k hk
+
+/-- `options_visible`, general form: ANY callee tree — nested MarshalEncode/UnmarshalDecode calls with options included,
+to any depth.  Every user call sees, for every option with a public setter, the options its innermost enclosing call
+started its body with (`root`: the effective options of that call; for user calls outside any such call, the struct
+the tree was started on). -/
+theorem options_visible_scoped (g : Bool) (a : Act) (s : Struct) (root seen : Struct)
+    (h : (root, seen) ∈ observeS g a s s) (k : Key) (hk : PlainKey k) : seen.getOption k = root.getOption k :=
+  getOption_sameOff (observeS_sameOff g a s s (SameOff.refl s) (root, seen) h) k hk
+
+/-- Not vacuous: user code that itself calls MarshalEncode with StringifyNumbers(true) on a value with a method: the
+inner user call sees StringifyNumbers set, the outer one does not; both see the coder's Deterministic(true). -/
+example :
+    let s := newCoder true [.bools (flagBit 19 ||| 1#64)]
+    let a : Act := .user (.call true [.bools (flagBit 18 ||| 1#64)] false (.user .skip))
+    (observeS false a s s).map (fun p => (p.2.getOption (.flag (flagBit 18)), p.2.getOption (.flag (flagBit 19)))) =
+      [((.bool false, false), (.bool true, true)), ((.bool true, true), (.bool true, true))] := by decide
+
+/-- `effective` is the struct the body runs on in c19's closed form of UnmarshalDecode (same for MarshalEncode with
+`call_marshal_closed`): the two descriptions of the scope agree. -/
+theorem effective_unmarshal (g : Bool) (opts : List Opt) (nn : Bool) (body : Act) (s s0 : Struct)
+    (he : effective g false opts nn s = some s0) :
+    (exec g (.call false opts nn body) s).2 = (exec g body s0).2 := by
+  rw [JsonV.Props.C19Scope.unmarshalDecode_spec]
+  unfold effective at he
+  split at he
+  · rename_i h1; cases he; simp [h1]
+  · split at he
+    · cases he
+    · rename_i h1 h2
+      simp only [Bool.false_eq_true, ↓reduceIte, Option.some.injEq, enterUnmarshal] at he
+      subst he; simp [h1, h2]
+
+/-- Not vacuous: MarshalEncode with Deterministic(true) on a coder that has Deterministic(false) and Indent; the value is
+a struct whose `string`-tagged member has a MarshalJSONTo that itself marshals a value with its own method. -/
+example :
+    let s := newCoder true [.bools (flagBit 19), .indent [0x20]]
+    let body : Act := .seq (.clear .tags) (.member true true [] (.user (.seq (.clear .tags) (.user .skip))))
+    (observe false (.call true [.bools (flagBit 19 ||| 1#64)] false body) s).length = 2 ∧
+    ∀ s' ∈ observe false (.call true [.bools (flagBit 19 ||| 1#64)] false body) s,
+      s'.getOption (.flag (flagBit 19)) = (.bool true, true) ∧ s'.getOption .indent = (.bytes [0x20], true) := by decide
+
+/-! ### reset_panics: the WithinArshalCall protocol as an invariant over call trees
+
+`Reset` panics iff `Flags.Get(WithinArshalCall)` (`resetPanics`).  The flag is set on entry of every user call and, since
+0821077, cleared on return only if it was not set on entry (`userCallS`: `saveGet`, `set …|1`, child, `[notSaved] set …|0`). -/
+
+/-- `reset_panics`.  At EVERY moment any user code holds the coder (`userPoints`: on entry and after each thing it
+did with the coder, including after nested user calls, nested MarshalEncode/UnmarshalDecode calls with any options,
+struct members, failures) `Reset` panics — for every callee tree. -/
+theorem reset_panics (g : Bool) (a : Act) (s s' : Struct) (h : s' ∈ userPoints g a s) : resetPanics s' = true :=
+  userPoints_resetPanics g a s s' h
+
+/-- …and no callee tree changes the flag for its caller: after the OUTERMOST call has returned, `Reset` works again
+on a coder where it worked before (success or failure of anything below notwithstanding); a nested call that
+returns leaves it panicking for the enclosing user code. -/
+theorem reset_after_return (g : Bool) (a : Act) (s : Struct) : resetPanics (exec g a s).1 = resetPanics s :=
+  resetPanics_exec g a s
+
+/-- Not vacuous: an outer user call that runs a nested user call and then still holds the coder. -/
+example :
+    let a : Act := .user (.seq (.user .skip) .skip)
+    (userPoints false a {}).length = 6 ∧ (∀ s' ∈ userPoints false a {}, resetPanics s' = true) ∧
+    resetPanics ({} : Struct) = false ∧ resetPanics (exec false a {}).1 = false := by decide
+
+/-! ### cache_indep -/
+
+/-- `cache_indep`.  The per-type arshaler cache and the per-`*Marshalers` function cache are memo tables of a
+function of the type alone (`compute`): starting from the empty table, whatever types are looked up in whatever
+order (top level first, nested first, repeated), every lookup returns `compute t` — the dispatch result does not
+depend on the cache state.  (Instantiate `compute` with `fun t => collect t.isBase t.implI fns` for `fncCache`.)
+Tie: harness copies A/B of every method set (visited top-level-first vs nested-first) and the reuse of one
+`*Marshalers` per (type, list) over all positions, both checked against the same reference and oracle. -/
+theorem cache_indep {κ α : Type} [DecidableEq κ] (compute : κ → α) (ts : List κ) :
+    (memoRun compute Memo.empty ts).1 = ts.map compute :=
+  (memoRun_spec compute ts Memo.empty (memoOK_empty compute)).1
+
+/-- The same from ANY table that only holds entries made by earlier lookups. -/
+theorem cache_indep_from {κ α : Type} [DecidableEq κ] (compute : κ → α) (cache : Memo κ α) (h : MemoOK compute cache)
+    (t : κ) : (memoLookup compute cache t).1 = compute t := (memoLookup_spec compute cache t h).1
+
+example : (memoRun (fun t : Bool × Bool => collect t.1 t.2 [⟨0, .iface, true⟩, ⟨1, .val, false⟩]) Memo.empty
+    [(true, true), (false, false), (true, true), (true, false)]).1 =
+    [[⟨0, .iface, true⟩, ⟨1, .val, false⟩], [], [⟨0, .iface, true⟩, ⟨1, .val, false⟩], [⟨1, .val, false⟩]] := by decide
+
+/-! ### legacy dispatch (`CallMethodsWithLegacySemantics`): the addressability rule as a decision table -/
+
+/-- Which methods are still considered: a pointer-receiver method is dropped for a value addressable only through a
+forced copy; where the rule applies (`hideAtName`: MarshalJSONTo/MarshalJSON/UnmarshalJSONFrom/UnmarshalJSON at an
+object-name position) the method is dropped whatever its receiver. -/
+theorem legacy_decision_table (r : Recv) (forcedAddr hideAtName : Bool) :
+    r.legacyVisible forcedAddr hideAtName =
+      match r, forcedAddr, hideAtName with
+      | .absent, _, _ => .absent
+      | _, _, true => .absent
+      | .pointer, true, false => .absent
+      | .pointer, false, false => .pointer
+      | .value, _, false => .value := by
+  cases r <;> cases forcedAddr <;> cases hideAtName <;> rfl
+
+/-- Under legacy semantics the four marshal wrappers (`needAddr && va.forcedAddr || NeedObjectName`) are exactly the
+documented method order applied to the reduced method set — for all 81 method sets, every coder state and behaviour.
+Tie: the harness runs cases with CallMethodsWithLegacySemantics through the same oracle (`corr-dispatch`). -/
+theorem legacy_dispatch_marshal (ms : MethodSet) (beh : Behav) (fncs : Arshaler) (ctx : Ctx) (h : ctx.legacy = true) :
+    makeMethodMarshaler .named ms beh fncs ctx =
+      documentedMethodsM (ms.legacy ctx.forcedAddr ctx.m.last.needObjectName) beh ctx.lvl ctx.m (fncs ctx) :=
+  legacy_makeMethodMarshaler ms beh fncs ctx h
+
+/-- Unmarshal: `needAddr` plays no role; only the object-name rule, and not for UnmarshalText. -/
+theorem legacy_dispatch_unmarshal (ms : UMethodSet) (beh : Behav) (fncs : Arshaler) (ctx : Ctx) (h : ctx.legacy = true) :
+    makeMethodUnmarshaler .named ms beh fncs ctx =
+      documentedMethodsU (ms.legacy ctx.m.last.needObjectName) beh ctx.lvl ctx.m ctx.inNull ctx.inStr (fncs ctx) :=
+  legacy_makeMethodUnmarshaler ms beh fncs ctx h
+
+/-- The text methods are NOT hidden at an object-name position (map keys keep using them): with a pointer-receiver
+MarshalJSON and a value-receiver MarshalText, as a map key, legacy semantics picks MarshalText. -/
+example :
+    let ms : MethodSet := { js := .pointer, tx := .value }
+    ms.legacy true true = { tx := .value } ∧ ms.legacy false false = ms := by decide
 
 end JsonV.Props.C17
